@@ -27,6 +27,8 @@ from strawberryfields.program import Program
 from strawberryfields.tdm import TDMProgram, is_ptype
 from strawberryfields import ops
 
+from .utils import _constructor_params
+
 
 # gates whose inverse is obtained by negating the first parameter (see :class:`~.ops.Gate`)
 NEGATION_INVERTS = {
@@ -260,7 +262,7 @@ def to_blackbird(prog: Program, version: str = "1.0") -> blackbird.BlackbirdProg
                     op["kwargs"]["dark_counts"] = cmd.op.dark_counts
 
         else:
-            params = list(cmd.op.p)
+            params = _constructor_params(cmd.op)
             if getattr(cmd.op, "dagger", False):
                 # Blackbird has no syntax for an inverted gate: write the equivalent
                 # non-inverted gate where the inverse is the negated first parameter
